@@ -6,6 +6,7 @@ import (
 	"net"
 	"os"
 	"path/filepath"
+	"runtime/pprof"
 	"sort"
 	"strings"
 	"sync"
@@ -18,19 +19,19 @@ import (
 )
 
 type Daemon struct {
-	inc      string
-	host     string
-	kind     string // daemon | cli
-	lockfile string
-	cfgPath  string
-	ctx      context.Context
-	cancel   context.CancelFunc
-	alive    bool
-	exited   bool
-	exitCode int
-	app      *app.App
+	inc       string
+	host      string
+	kind      string // daemon | cli
+	lockfile  string
+	cfgPath   string
+	ctx       context.Context
+	cancel    context.CancelFunc
+	alive     bool
+	exited    bool
+	exitCode  int
+	app       *app.App
 	startedAt time.Duration
-	diedAt   time.Duration
+	diedAt    time.Duration
 
 	// iteration tracking (filled from hook queue)
 	state     string
@@ -330,7 +331,9 @@ func (s *Sim) startDaemon0(host string) *Daemon {
 	n := s.hostInc[host]
 	inc := fmt.Sprintf("%s#%d", host, n)
 	cfgPath, lockfile := s.writeConfig(host, inc, n, false)
-	a, err := app.NewApp(cfgPath, "error", false)
+	var a *app.App
+	var err error
+	labelled(inc, "daemon", func() { a, err = app.NewApp(cfgPath, "error", false) })
 	if err != nil {
 		panic(fmt.Sprintf("verifsim: NewApp failed for %s: %v", inc, err))
 	}
@@ -343,14 +346,22 @@ func (s *Sim) startDaemon0(host string) *Daemon {
 	s.liveByHost[host] = d
 	s.trace("DAEMON-START %s", inc)
 	s.mon.onDaemonStart(d)
-	go func() {
-		code := a.Run()
-		hookMu.Lock()
-		exitQ = append(exitQ, exitEv{inc, code})
-		hookMu.Unlock()
-		s.ping()
-	}()
+	labelled(inc, "daemon", func() {
+		go func() {
+			code := a.Run()
+			hookMu.Lock()
+			exitQ = append(exitQ, exitEv{inc, code})
+			hookMu.Unlock()
+			s.ping()
+		}()
+	})
 	return d
+}
+
+// labelled: goroutines started inside f (and their descendants) carry the incarnation they belong
+// to as profiler labels, which is how the goroutine census of C20 tells the processes apart.
+func labelled(inc, kind string, f func()) {
+	pprof.Do(context.Background(), pprof.Labels("verif_inc", inc, "verif_kind", kind), func(context.Context) { f() })
 }
 
 type exitEv struct {
@@ -428,20 +439,24 @@ func (s *Sim) runCLI0(host string, name string, f func(a *app.App) int) *Daemon 
 	hookMu.Lock()
 	ctxByLock[lockfile] = ctx
 	hookMu.Unlock()
-	a, err := app.NewApp(cfgPath, "fatal", true)
+	var a *app.App
+	var err error
+	labelled(inc, "cli", func() { a, err = app.NewApp(cfgPath, "fatal", true) })
 	if err != nil {
 		panic(fmt.Sprintf("verifsim: NewApp(cli) failed: %v", err))
 	}
 	d := &Daemon{inc: inc, host: host, kind: "cli", lockfile: lockfile, cfgPath: cfgPath, ctx: ctx, cancel: cancel, alive: true, app: a, startedAt: s.now()}
 	s.daemons[inc] = d
 	s.trace("CLI-START %s %s", inc, name)
-	go func() {
-		code := f(a)
-		// not calling a.CloseLogger(): with an interactive logger it closes os.Stderr of this process
-		hookMu.Lock()
-		exitQ = append(exitQ, exitEv{inc, code})
-		hookMu.Unlock()
-		s.ping()
-	}()
+	labelled(inc, "cli", func() {
+		go func() {
+			code := f(a)
+			// not calling a.CloseLogger(): with an interactive logger it closes os.Stderr of this process
+			hookMu.Lock()
+			exitQ = append(exitQ, exitEv{inc, code})
+			hookMu.Unlock()
+			s.ping()
+		}()
+	})
 	return d
 }
